@@ -653,6 +653,7 @@ class Interp:
             # the *same* object is not supported)
             if scheme == 'list':
                 it_arr, it_n, it_ek = it.arr, it.n, it.ek
+                env['_it'] = VList(it_arr, it_n, it_ek)       # ghost name of the sequence being iterated
             if scheme == 'set' and ek is None:
                 return    # empty literal container: no iteration
         # ghost iteration state
@@ -1632,6 +1633,8 @@ class Interp:
                 res = c.returns.fresh(self, 'r_' + callee.split('.')[-1])
             else:
                 res = VConst(None)
+            for fname, src in c.bind_result.items():
+                res.fields[fname] = self.spec_eval(src, env)
             env['result'] = res
             for gname, gk in c.ghost_results.items():
                 env[gname] = gk.fresh(self, gname)      # existential witnesses of the callee's ghost outputs
